@@ -853,6 +853,41 @@ def gen_export(repo, f=lstrlit):
     out.append("end Mingus.Gen.Export")
     return "\n".join(out) + "\n"
 
+# ---------------------------------------------------------------- tunings and tablature (C20)
+TUN_METHODS = ["__init__", "count_strings", "count_courses", "find_frets", "find_fingering", "find_chord_fingering",
+               "frets_to_NoteContainer", "find_note_names", "get_Note"]
+TUN_FUNCS = ["fingers_needed", "add_tuning", "get_tuning", "get_tunings"]
+TAB_FUNCS = ["begin_track", "add_headers", "from_Note", "from_NoteContainer", "from_Bar", "from_Track", "from_Composition",
+             "_get_qsize", "_get_width"]
+
+def lnote(x):
+    nm, o = x.split("-")
+    return "⟨%s, %s, 1, 64⟩" % (lstrlit(nm), o)
+
+def gen_tunings(repo, f=lstrlit):
+    t = parse(repo, "mingus/extra/tunings.py")
+    c = cls(t, "StringTuning")
+    tb = parse(repo, "mingus/extra/tablature.py")
+    rows = []
+    for n in t.body:
+        if isinstance(n, ast.Expr) and isinstance(n.value, ast.Call) and getattr(n.value.func, "id", None) == "add_tuning":
+            a = [lit(x) for x in n.value.args]
+            if len(a) != 3:
+                raise Shape("add_tuning call with %d arguments" % len(a))
+            rows.append(a)
+    def ts(x):
+        if isinstance(x, list):
+            return ".course [%s]" % ", ".join(lnote(y) for y in x)
+        return ".one %s" % lnote(x)
+    out = ["import Mingus.Model.Tunings", "namespace Mingus.Gen.Tunings", "open Mingus Mingus.Tun Mingus.Containers"]
+    out.append("def registered : List Tun.Entry := " + llist("⟨%s, %s, [%s]⟩" % (f(r[0]), f(r[1]), ", ".join(ts(x) for x in r[2])) for r in rows))
+    out.append("def classSources : List (List Char × List (List Char)) := " + src_table(c, TUN_METHODS, f))
+    out.append("def funcSources : List (List Char × List (List Char)) := " + func_table(t, TUN_FUNCS, f))
+    out.append("def tablatureSources : List (List Char × List (List Char)) := " + func_table(tb, TAB_FUNCS, f))
+    out.append("def defaultTuningCall : List Char := " + f(ast.unparse(module_assign(tb, "default_tuning"))))
+    out.append("end Mingus.Gen.Tunings")
+    return "\n".join(out) + "\n"
+
 GENERATORS = {
     "Notes": gen_notes,
     "Keys": gen_keys,
@@ -869,6 +904,7 @@ GENERATORS = {
     "Midi": gen_midi,
     "Sequencer": gen_sequencer,
     "Export": gen_export,
+    "Tunings": gen_tunings,
 }
 
 def main():
